@@ -47,7 +47,8 @@ ASSUMPTIONS = ["observables are returned arrays, frame attributes, RAW file byte
 PROBES = ["twin_frame_compared", "twin_raw_compared", "history_compared", "reuse_compared", "user_dict_compared",
           "reuse_after_failed_recording", "reuse_from_data", "estimate_seeded_on_template", "reuse_not_compared_interrupt_inside_source_request",
           "copy_of_load_fil", "copy_of_sizes", "record_default_header", "record_shared_header", "aborted_recording_in_history",
-          "array_then_single", "from_data_seeded_estimate", "copy_of_load_h5", "copy_of_derived", "hashseed_program_compared", "near_twin_prefix"]
+          "array_then_single", "from_data_seeded_estimate", "copy_of_load_h5", "copy_of_derived", "hashseed_program_compared", "near_twin_prefix",
+          "frame_from_consolidated_cadence", "copy_of_consolidated"]
 
 SEAM_KEYS = {"clock": ["clock_origin", "clock_jitter_seed"], "entropy": ["entropy_salt"], "listing": ["listing"], "scratch": ["scratch"],
              "cwd": ["chdir"]}
@@ -106,6 +107,11 @@ def gen_frame_program(rng, n_ops=None, stateful=True):
             prog.append({"op": "f_zero", "id": fid})
         elif r < 0.94:
             prog.append({"op": "f_meta", "id": fid, "n": rng.randrange(1000)})
+        elif r < 0.955:
+            # another construction route: the frames of a cadence concatenated into one (absolute, gapped time axis)
+            prog.append({"op": "f_consolidate", "ids": [rng.randrange(nid) for _ in range(rng.choice([1, 2, 3]))], "new": nid,
+                         "seed": rng.randrange(1 << 30)})
+            nid += 1
         elif r < 0.97:
             prog.append({"op": "cad_inject", "ids": [rng.randrange(nid) for _ in range(rng.choice([1, 2, 3]))],
                          "sig": F.gen_signal(rng, geom, stateful=False)})
@@ -121,6 +127,8 @@ def gen_frame_program(rng, n_ops=None, stateful=True):
             routes[op["new"]] = op["route"]
         elif op["op"] == "f_save" and op.get("load_as") is not None:
             routes[op["load_as"]] = "load_" + op["fmt"]
+        elif op["op"] == "f_consolidate":
+            routes[op["new"]] = "consolidated"
         elif "new" in op:
             routes[op["new"]] = "derived"
     return prog
